@@ -29,7 +29,7 @@ def struct_val(rng):
 
 def sparse_val(rng):
     """k * 2^e + delta for e at / next to a limb boundary, small k, small delta (possibly negative, mod p)"""
-    e = rng.choice([0, 50, 51, 52, 101, 102, 103, 152, 153, 154, 203, 204, 205, 253, 254])
+    e = rng.choice([0, 50, 51, 52, 101, 102, 103, 152, 153, 154, 203, 204, 205, 253, 254]) if rng.randrange(2) else rng.randrange(255)
     k = rng.randrange(1, 40)
     dlt = rng.randrange(-40, 41) if rng.randrange(2) else 0
     return (k * 2**e + dlt) % P
@@ -601,11 +601,15 @@ def stale_state_programs(g, tier, tag):
 
             k = rng.randrange(4)
             pat = lambda v: [[v, "p2"], ["p2", v], ["p2", "p1"], [v, v]][k]
-            uses()
+            if rng.randrange(2):                              # otherwise the in-place call is the first use of this object
+                uses()
             p.op("Point.Set", r="p5", a=["p0"])               # a copy of V's value before the overwrite
             write("p0", "p0")                                 # in place: V is receiver (and argument where the writer reads it)
+            twice = w in ("Point.Negate.self", "Point.MultByCofactor", "Point.ScalarMult") and rng.randrange(2) == 0
+            if twice:                                         # in place twice in a row
+                write("p0", "p0")
             uses()
-            if not w.endswith(".bad"):
+            if not w.endswith(".bad") and not twice:
                 write("p4", "p5")                             # the same operation on the copy, into a never-used receiver W
                 uses("p4", "p1")
                 # a freshly decoded copy of V's current value
@@ -705,6 +709,152 @@ def cold_programs(g, tier, tag):
         p.op("Point.VarTimeDoubleScalarBaseMult", r="p5", a=["s0", "p1", "s0"])
         p.op("Point.Bytes", r="p4", o=["b2"])
         p.op("Point.Bytes", r="p5", o=["b3"])
+
+
+def history_programs_scalar(g, tier, tag):
+    """the scalar counterpart of stale_state_programs: V is used in every role, overwritten in place by every writer (with
+    V among the arguments where the writer reads it), used again; the same writer runs on a copy of V's old value into a
+    never-used receiver W and W is used in the same roles.  A writer applied twice in a row (the first time in place) is
+    part of `uses`: memoised or cached results keyed on an overwritten argument show here"""
+    rng = g.rng
+    writers = ["Invert", "Negate", "Set", "Add", "Subtract", "Multiply", "MultiplyAdd", "SetCanonicalBytes", "SetUniformBytes",
+               "SetBytesWithClamping", "SetCanonicalBytes.bad"]
+    for _ in range(1 if tier == "quick" else 6):
+        for w in writers:
+            p = g.new("%s scalar use / overwrite by %s / use again" % (tag, w))
+            load_scalar(p, "s0", scalar_val(rng), rng)
+            load_scalar(p, "s1", scalar_val(rng), rng)
+
+            def uses(V="s0", O="s1"):
+                p.op("Scalar.Invert", r="s3", a=[V])
+                p.op("Scalar.Negate", r="s3", a=[V])
+                p.op("Scalar.Multiply", r="s3", a=[V, O])
+                p.op("Scalar.Multiply", r="s3", a=[O, V])
+                p.op("Scalar.Add", r="s3", a=[O, V])
+                p.op("Scalar.Subtract", r="s3", a=[O, V])
+                p.op("Scalar.MultiplyAdd", r="s3", a=[V, O, V])
+                p.op("Scalar.Equal", r=V, a=[O])
+                p.op("Scalar.Equal", r=O, a=[V])
+                p.op("Scalar.Bytes", r=V, o=["b0"])
+                p.op("Point.ScalarBaseMult", r="p3", a=[V])
+
+            def write(r, v):
+                if w in ("Invert", "Negate", "Set"):
+                    p.op("Scalar." + w, r=r, a=[v])
+                elif w in ("Add", "Subtract", "Multiply"):
+                    p.op("Scalar." + w, r=r, a=[[v, "s1"], ["s1", v], [v, v]][k % 3])
+                elif w == "MultiplyAdd":
+                    p.op("Scalar.MultiplyAdd", r=r, a=[[v, "s1", "s1"], ["s1", v, "s1"], ["s1", "s1", v], [v, v, v]][k % 4])
+                elif w == "SetCanonicalBytes":
+                    p.op("Scalar.Bytes", r="s1", o=["b2"])
+                    p.op("Scalar.SetCanonicalBytes", r=r, a=["b2"])
+                elif w == "SetCanonicalBytes.bad":
+                    p.buf("b2", le(L + 1))
+                    p.op("Scalar.SetCanonicalBytes", r=r, a=["b2"])
+                elif w == "SetUniformBytes":
+                    p.buf("b2", wide)
+                    p.op("Scalar.SetUniformBytes", r=r, a=["b2"])
+                else:
+                    p.buf("b2", wide[:32])
+                    p.op("Scalar.SetBytesWithClamping", r=r, a=["b2"])
+
+            k = rng.randrange(12)
+            wide = bytes(rng.randrange(256) for _ in range(64))
+            if k % 2 == 0:                       # otherwise the in-place call is the first time the library sees this value
+                uses()
+            p.op("Scalar.Set", r="s5", a=["s0"])
+            write("s0", "s0")
+            twice = w in ("Invert", "Negate") and k % 4 < 2
+            if twice:                            # in place twice in a row
+                write("s0", "s0")
+            uses()
+            if w in ("Invert", "Negate"):        # the same writer again, on what it just produced (not in place, then in place)
+                p.op("Scalar." + w, r="s3", a=["s0"])
+                write("s0", "s0")
+                uses()
+            if not w.endswith(".bad") and not twice:
+                write("s4", "s5")
+                uses("s4", "s1")
+            uses("s1", "s0")
+            uses()
+
+
+def history_programs_elem(g, tier, tag):
+    """the same for field elements"""
+    rng = g.rng
+    writers = ["Invert", "Square", "Negate", "Absolute", "Pow22523", "Set", "Add", "Subtract", "Multiply", "Mult32", "SqrtRatio.u",
+               "SqrtRatio.v", "Select", "Swap", "SetBytes", "SetWideBytes", "Zero", "One"]
+    for _ in range(1 if tier == "quick" else 6):
+        for w in writers:
+            p = g.new("%s element use / overwrite by %s / use again" % (tag, w))
+            load_elem(p, "e0", field_val(rng), rng)
+            load_elem(p, "e1", field_val(rng), rng)
+
+            def uses(V="e0", O="e1"):
+                p.op("Elem.Invert", r="e3", a=[V])
+                p.op("Elem.Square", r="e3", a=[V])
+                p.op("Elem.Negate", r="e3", a=[V])
+                p.op("Elem.Absolute", r="e3", a=[V])
+                p.op("Elem.Multiply", r="e3", a=[V, O])
+                p.op("Elem.Multiply", r="e3", a=[O, V])
+                p.op("Elem.Subtract", r="e3", a=[O, V])
+                p.op("Elem.Add", r="e3", a=[V, O])
+                p.op("Elem.SqrtRatio", r="e3", a=[V, O])
+                p.op("Elem.SqrtRatio", r="e3", a=[O, V])
+                p.op("Elem.Pow22523", r="e3", a=[V])
+                p.op("Elem.Mult32", r="e3", a=[V], n=121666)
+                p.op("Elem.Equal", r=V, a=[O])
+                p.op("Elem.Equal", r=O, a=[V])
+                p.op("Elem.IsNegative", r=V)
+                p.op("Elem.Bytes", r=V, o=["b0"])
+
+            def write(r, v):
+                if w in ("Invert", "Square", "Negate", "Absolute", "Pow22523", "Set"):
+                    p.op("Elem." + w, r=r, a=[v])
+                elif w in ("Add", "Subtract", "Multiply"):
+                    p.op("Elem." + w, r=r, a=[[v, "e1"], ["e1", v], [v, v]][k % 3])
+                elif w == "Mult32":
+                    p.op("Elem.Mult32", r=r, a=[v], n=y32)
+                elif w == "SqrtRatio.u":
+                    p.op("Elem.SqrtRatio", r=r, a=[v, "e1"])
+                elif w == "SqrtRatio.v":
+                    p.op("Elem.SqrtRatio", r=r, a=["e1", v])
+                elif w == "Select":
+                    p.op("Elem.Select", r=r, a=[[v, "e1"], ["e1", v]][k % 2], n=k % 2)
+                elif w == "Swap":
+                    p.op("Elem.Set", r="e6", a=["e1"])
+                    if r != v:
+                        p.op("Elem.Set", r=r, a=[v])
+                    p.op("Elem.Swap", r=r, a=["e6"], n=1)
+                elif w == "SetBytes":
+                    p.buf("b2", wide[:32])
+                    p.op("Elem.SetBytes", r=r, a=["b2"])
+                elif w == "SetWideBytes":
+                    p.buf("b2", wide)
+                    p.op("Elem.SetWideBytes", r=r, a=["b2"])
+                else:
+                    p.op("Elem." + w, r=r)
+
+            k = rng.randrange(12)
+            y32 = rng.choice([0, 1, 2, 19, 38, 2**31, 2**32 - 1, rng.randrange(2**32)])
+            wide = bytes(rng.randrange(256) for _ in range(64))
+            if k % 2 == 0:
+                uses()
+            p.op("Elem.Set", r="e5", a=["e0"])
+            write("e0", "e0")
+            twice = w in ("Invert", "Negate") and k % 4 < 2
+            if twice:
+                write("e0", "e0")
+            uses()
+            if w in ("Invert", "Square", "Negate", "Absolute", "Pow22523"):
+                p.op("Elem." + w, r="e3", a=["e0"])
+                write("e0", "e0")
+                uses()
+            if not twice:
+                write("e4", "e5")
+                uses("e4", "e1")
+            uses("e1", "e0")
+            uses()
 
 
 def both_signs_programs(g, tier, tag):
@@ -923,6 +1073,31 @@ def suite_C06(g, tier):
                 if j % 2 == 0:
                     p.rescale("p1", rng.randrange(2, P))
                     p.op("Point.Equal", r="p0", a=["p1"])
+    # representations in which one coordinate is a sparse value k * 2^e (every bit position e), compared with +-P and the
+    # sign siblings at Z = 1 and in the same normalisation: the cross products X1 Z2 - X2 Z1, Y1 Z2 - Y2 Z1 that Equal
+    # forms are then 0 or a sparse value (a difference confined to a few bits of one limb)
+    for it in range(40 if tier == "quick" else 1500):
+        A = any_point(rng) if it % 3 else special_point(rng)
+        x, y = A
+        coords = [c for c in (x, y, 1, x * y % P) if c % P]
+        c = coords[it % len(coords)]
+        sv = (rng.choice([1, 1, 3, 5, 255]) << rng.randrange(255)) % P
+        lam = sv * inv(c) % P
+        p = g.new("C06 sparse-normalised representation")
+        for r, v in zip(("e4", "e5", "e6", "e7"), (x * lam % P, y * lam % P, lam, x * y % P * lam % P)):
+            p.elem_from_int(r, v)
+        p.op("Point.SetExtendedCoordinates", r="p0", a=["e4", "e5", "e6", "e7"])
+        for j, q in enumerate([((P - x) % P, y), (x, (P - y) % P), ((P - x) % P, (P - y) % P), (x, y), padd(A, TORS_PTS[1 + it % 7])]):
+            load_point(p, "p1", q, rng, "bytes")
+            p.op("Point.Equal", r="p0", a=["p1"])
+            p.op("Point.Equal", r="p1", a=["p0"])
+            if j < 2:
+                lam2 = (rng.choice([1, 3]) << rng.randrange(255)) % P * inv(c) % P
+                for r, v in zip(("e4", "e5", "e6", "e7"), (q[0] * lam2 % P, q[1] * lam2 % P, lam2, q[0] * q[1] % P * lam2 % P)):
+                    p.elem_from_int(r, v)
+                p.op("Point.SetExtendedCoordinates", r="p2", a=["e4", "e5", "e6", "e7"])
+                p.op("Point.Equal", r="p0", a=["p2"])
+                p.op("Point.Equal", r="p2", a=["p0"])
     sibling_programs(g, tier, "C06")
     for i in range(8):
         p = g.new("C06 torsion row %d" % i)
@@ -937,6 +1112,7 @@ SC_OPS2 = ["Scalar.Add", "Scalar.Subtract", "Scalar.Multiply"]
 
 def suite_C07(g, tier):
     rng = g.rng
+    history_programs_scalar(g, tier, "C07")
     n = 40 if tier == "quick" else 6000
     for it in range(n):
         p = g.new("C07 scalar arithmetic")
@@ -1278,6 +1454,7 @@ def wide_edge_inputs(rng):
 
 def suite_C09(g, tier):
     rng = g.rng
+    history_programs_elem(g, tier, "C09")
     # decoded wide inputs at the edge of the representation invariant, then used as subtrahend / under Negate / Absolute
     ws = wide_edge_inputs(rng)
     for i in range(0, len(ws), 4):
@@ -1564,6 +1741,8 @@ def alias_assignments(npos, regs):
 
 def suite_C11(g, tier):
     rng = g.rng
+    history_programs_scalar(g, "quick", "C11")
+    history_programs_elem(g, "quick", "C11")
     reps = 1 if tier == "quick" else 6
     for _ in range(reps):
         # points
@@ -2123,6 +2302,8 @@ def suite_C19(g, tier):
         p.op("Point.ScalarMult", r="p0", a=["s0", "p1"])
         p.op("Point.Bytes", r="p0", o=["b0"])
     stale_state_programs(g, tier, "C19")
+    history_programs_scalar(g, tier, "C19")
+    history_programs_elem(g, tier, "C19")
     cold_programs(g, tier, "C19")
     both_signs_programs(g, tier, "C19")
 
@@ -2435,20 +2616,40 @@ def conc_scenario(sid, rng, G):
     # shared input buffers (read-only for every goroutine): with spare capacity and a live tail
     pre.buf("b0", bytes(rng.randrange(256) for _ in range(32)), cap=96, tail=bytes(rng.randrange(1, 256) for _ in range(64)))
     pre.buf("b1", enc_point(*rand_point(rng)), cap=64, tail=bytes(rng.randrange(1, 256) for _ in range(32)))
+    # every second scenario starts in a WARM process: the prelude has already gone through every operation that keeps state
+    # between calls (lazily built tables, pools, memos), with term counts on both sides of the usual batch widths
+    if sid % 2 == 1:
+        for n in (rng.choice([1, 2]), 9):
+            pre.op(rng.choice(["Point.MultiScalarMult", "Point.VarTimeMultiScalarMult"]), r="p5",
+                   ss=[["s0", "s1"][i % 2] for i in range(n)], ps=[["p0", "p1"][(i // 2) % 2] for i in range(n)])
+        pre.op("Point.ScalarBaseMult", r="p2", a=["s1"])
+        pre.op("Point.VarTimeDoubleScalarBaseMult", r="p3", a=["s0", "p0", "s1"])
+        pre.op("Point.ScalarMult", r="p4", a=["s1", "p0"])
+        pre.op("Scalar.Invert", r="s3", a=["s1"])
+        pre.op("Elem.Invert", r="e3", a=["e0"])
+        pre.op("Point.ExtendedCoordinates", r="p0", o=["e4", "e5", "e6", "e7"])
+        pre.op("Point.Bytes", r="p0", o=["b4"])
+        pre.op("Point.BytesMontgomery", r="p0", o=["b5"])
     gors = []
-    first = rng.choice(["same-base", "same-naf", "mixed"])
+    first = rng.choice(["same-base", "same-naf", "mixed", "staggered", "staggered"])
     for g in range(G):
         p = Prog(sid * 100 + g + 1, "C18 scenario %d goroutine %d" % (sid, g + 1))
         load_scalar(p, "s2", scalar_val(rng), rng, "canon")
         ops = ["base", "naf", "mult", "msm", "vmsm", "add", "misc"]
         rng.shuffle(ops)
-        if first == "same-base" or (first == "mixed" and g % 2 == 0):
+        if first == "staggered":
+            # arrivals at the lazily built state spread over time: goroutine g does g mod 4 pieces of other work first,
+            # then alternates between the two table users
+            other = [o for o in ops if o not in ("base", "naf")]
+            tbl = ["naf", "base"] if g % 3 else ["base", "naf"]
+            ops = other[: g % 4] + tbl + other[g % 4:]
+        elif first == "same-base" or (first == "mixed" and g % 2 == 0):
             ops.remove("base")
             ops.insert(0, "base")
         else:
             ops.remove("naf")
             ops.insert(0, "naf")
-        for op in ops[: rng.randrange(3, 7)]:
+        for op in ops[: (rng.randrange(3, 7) if first != "staggered" else 6)]:
             if op == "base":
                 p.op("Point.ScalarBaseMult", r="p2", a=[rng.choice(["s0", "s2"])])
                 p.op("Point.Bytes", r="p2", o=["b2"])
@@ -2458,11 +2659,12 @@ def conc_scenario(sid, rng, G):
             elif op == "mult":
                 p.op("Point.ScalarMult", r="p4", a=["s1", rng.choice(["p0", "p1"])])
             elif op == "msm":
-                p.op("Point.MultiScalarMult", r="p5", ss=["s0", "s2", "s1"], ps=["p0", "p1", "p0"])
+                n = rng.choice([3, 3, 1, 2, 9])
+                p.op("Point.MultiScalarMult", r="p5", ss=[["s0", "s2", "s1"][i % 3] for i in range(n)], ps=[["p0", "p1", "p0"][i % 3] for i in range(n)])
                 p.op("Point.Bytes", r="p5", o=["b4"])
             elif op == "vmsm":
-                n = rng.randrange(1, 4)
-                p.op("Point.VarTimeMultiScalarMult", r="p5", ss=["s0", "s2", "s1"][:n], ps=["p0", "p1", "p0"][:n])
+                n = rng.choice([1, 2, 3, 3, 9])
+                p.op("Point.VarTimeMultiScalarMult", r="p5", ss=[["s0", "s2", "s1"][i % 3] for i in range(n)], ps=[["p0", "p1", "p0"][i % 3] for i in range(n)])
                 p.op("Point.Bytes", r="p5", o=["b4"])
             elif op == "add":
                 p.op("Point.Add", r="p2", a=["p0", "p1"])
